@@ -3,6 +3,6 @@ CONSTANTS
   VALS = {"v1", "v2", "v3"}
   FORD <- t_FORD
   TOKENS = {"t1", "t2"}
-  FIX = {}
+  FIX = {"FROMTO", "WINDOW", "L26"}
 POSTCONDITION Consumed
 CHECK_DEADLOCK FALSE
